@@ -34,6 +34,7 @@ func (*TumblingWindow).NextSlot
   ensures nil: tw.currentSlot == nil ==> result == nil
   ensures fresh: tw.currentSlot != nil ==> fresh(result)
   ensures chain: tw.currentSlot != nil ==> slotOK(result, tw.size) && *result.Start == *tw.currentSlot.End
+  ensures alignment-preserved: tw.currentSlot != nil && tw.size > 0 && slotOK(tw.currentSlot, tw.size) && *tw.currentSlot.Start % tw.size == 0 ==> *result.Start % tw.size == 0
 
 func (*TumblingWindow).dropLastRow
   props C01 C02
@@ -202,4 +203,41 @@ func (*TumblingWindow).Add
   ensures slot-never-moved-by-ingest: old(tw.initialized) && tw.config.AllowedLateness <= 0 ==> tw.currentSlot == old(tw.currentSlot) && tw.initialized
   ensures processing-time-always-buffered: tw.config.TimeCharacteristic != "EventTime" && second(extractTimestamp(data, tw.config.TsProp, tw.config.TimeUnit)) ==> appended(tw.data, old(tw.data), extractTimestamp(data, tw.config.TsProp, tw.config.TimeUnit), data)
   loop 1 invariant held(tw.mu) && wheld(tw.mu) && twInv(tw)
+@*/
+
+/*@
+func NewWatermark
+  props C01 C02
+  ensures fresh: fresh(result)
+  ensures inv: wmInv(result)
+  ensures config: result.maxOutOfOrderness == maxOutOfOrderness && result.idleTimeout == idleTimeout
+  ensures starts-at-zero: zero(result.currentWatermark) && zero(result.maxEventTime) && zero(result.lastSentWatermark)
+
+func NewTumblingWindow
+  props C01 C02
+  modifies *
+  ensures inv: result1 == nil ==> result0 != nil && twInv(result0) && !result0.initialized && len(result0.data) == 0
+  ensures size-positive: result1 == nil ==> result0.size > 0
+
+func (*TumblingWindow).SetCallback
+  props C01
+  acquires tw.mu
+  modifies tw.callback
+  ensures tw.callback == callback
+
+func (*TumblingWindow).Reset
+  props C01 C02
+  modifies *
+  ensures cleared: !tw.initialized && tw.currentSlot == nil && len(tw.data) == 0
+
+func (*TumblingWindow).Trigger
+  props C01
+  acquires tw.mu
+  modifies *
+  loop 1 invariant newData == rowsFrom(arr($s), $i, nextStart)
+  loop 2 invariant resultData == rowsIn(arr($s), $i, *tw.currentSlot.Start, *tw.currentSlot.End, tw.currentSlot)
+  before Unlock batch-is-current-interval: len(resultData) > 0 ==> resultData == rowsIn(arr(old(tw.data)), len(old(tw.data)), *old(tw.currentSlot).Start, *old(tw.currentSlot).End, old(tw.currentSlot))
+  before Unlock later-rows-kept: len(resultData) > 0 ==> tw.data == rowsFrom(arr(old(tw.data)), len(old(tw.data)), *old(tw.currentSlot).End)
+  before Unlock advances-one-interval: len(resultData) > 0 ==> tw.currentSlot != nil && *tw.currentSlot.Start == *old(tw.currentSlot).End && *tw.currentSlot.End == *old(tw.currentSlot).End + tw.size
+  before Unlock event-time-noop: tw.config.TimeCharacteristic == "EventTime" ==> tw.data == old(tw.data) && tw.currentSlot == old(tw.currentSlot)
 @*/
